@@ -1554,6 +1554,15 @@ func (w *pWorld) execTwin(op Op) {
 			// longer with MPUB's count and size words than as lines of text (or shorter, with blank lines
 			// and carriage returns), and right at the limit one form fits and the other does not
 			rc.Probe("twin_body_limit_differs_by_encoding")
+			// (what each side accepted is still owed on its own topic)
+			for _, b := range bodies {
+				if hresp.Err == nil && hresp.Status == 200 {
+					w.twinLedger["twinh"] = append(w.twinLedger["twinh"], string(b))
+				}
+				if tOK {
+					w.twinLedger["twint"] = append(w.twinLedger["twint"], string(b))
+				}
+			}
 			return
 		}
 	case 5: // binary multi publish
